@@ -91,6 +91,9 @@ def run_variant(args):
     except Exception as e:  # noqa: BLE001
         return {"id": v["id"], "status": "analysis-error", "why": f"{type(e).__name__}: {e}"[:300]}
     fails = [f for f in col.failures() if match_known(f, prop, known) is None]
+    if not fails and getattr(col, "incomplete", None):
+        # the analysis stopped early and everything reported before that point is a recorded finding: no verdict, as in the real check
+        return {"id": v["id"], "status": "analysis-error", "why": str(col.incomplete)[:300]}
     return {
         "id": v["id"],
         "status": "fired" if fails else "silent",
